@@ -63,7 +63,7 @@ func tmRun(t *testing.T, lines []string) []string {
 			case "cfg":
 				settle()
 				base = runtime.NumGoroutine()
-				outs = append(outs, "ok")
+				outs = appendLive(outs, "ok")
 				continue
 			case "timeout":
 				k := atoi(f[2])
@@ -93,10 +93,10 @@ func tmRun(t *testing.T, lines []string) []string {
 				// at the due instant either order of tick and Stop is legal: only the
 				// goroutine count is compared; what fired is dropped
 				a := answer()
-				outs = append(outs, "stopat "+a[strings.Index(a, "g="):])
+				outs = appendLive(outs, "stopat "+a[strings.Index(a, "g="):])
 				continue
 			}
-			outs = append(outs, answer())
+			outs = appendLive(outs, answer())
 		}
 		// leave nothing behind
 		for _, tm := range timers {
